@@ -720,6 +720,29 @@ Definition c07_check (c : cast_case) : bool :=
   let '(_, _, _, _, _, obs) := c in res_eqb (c07_run c) obs.
 Definition c07_show (c : cast_case) := c07_run c.
 
+(* The environment of a cast: the decimal context of the calling thread (decimal.getcontext()):
+   precision, Emax, Emin, rounding mode (0 = ROUND_HALF_EVEN, 1 = ROUND_DOWN, 2 = ROUND_UP,
+   3 = ROUND_HALF_UP), trap set (0 = none, 1 = the default three, 2 = all), clamp.
+   The casts work in a context of their own (Context(prec=precision, ROUND_HALF_EVEN)) and, since
+   056ea2a (F-C07-6 fixed), build the quantum from its digits, so nothing is read from the
+   environment - with ONE exception, by design: a DECIMAL column declared without precision takes
+   the caller's precision (FlatColumn.__init__: decimal.getcontext().prec).  [c07_run_env] is the
+   cast with that precision filled in from the environment; under [default_env] it is [c07_run]. *)
+Record denv := mkenv { env_prec : Z; env_emax : Z; env_emin : Z; env_round : N; env_traps : N; env_clamp : bool }.
+Definition default_env : denv := mkenv context_prec dec_emax dec_emin 0 1 false.
+Definition reads_env_prec (c : cast_case) : bool :=
+  let '(col, t, k, _, _, _) := c in
+  col && otype_eqb t T_DECIMAL && match kw_precision k with None => true | Some _ => false end.
+Definition c07_run_env (e : denv) (c : cast_case) : res pyval :=
+  let '(col, t, k, x, o, obs) := c in
+  if reads_env_prec c
+  then c07_run (col, t, mkkw (kw_length k) (Some (env_prec e)) (kw_scale k) (kw_element k), x, o, obs)
+  else c07_run c.
+Definition env_case := (denv * cast_case)%type.
+Definition c07_check_env (ec : env_case) : bool :=
+  let '(e, c) := ec in let '(_, _, _, _, _, obs) := c in res_eqb (c07_run_env e c) obs.
+Definition c07_show_env (ec : env_case) := c07_run_env (fst ec) (snd ec).
+
 (* a rendering case: the specification-side str(v) against what CPython printed *)
 Definition c07_check_str (c : pyval * otab * res (list N)) : bool :=
   let '(v, o, obs) := c in
